@@ -7,7 +7,33 @@ ASSUMPTIONS = ["text without conversion-triggering sequences when text_convert i
 STRATS = ["plain", "plain", "page_by", "page_by", "subline", "subline+page_by"]
 
 
+# column names a helper column of the implementation might also want to use
+RESERVED = ["page", "index", "row_nr", "count", "literal", "len", "total_rows", "is_group_start", "column_0", "row_index",
+            "group", "page_number", "data", "__index__", "by", "value"]
+
+
+def reserved_docs():
+    out = []
+    for k in range(0, len(RESERVED), 4):
+        names = RESERVED[k:k + 4]
+        for strategy in ("plain", "page_by", "multi"):
+            cols = ["id"] + names + (["g0"] if strategy == "page_by" else [])
+            rows = [[f"#{i}# r"] + [f"v{j}w{i}" for j, n in enumerate(names)] + ([f"@A{i // 3}"] if strategy == "page_by" else []) for i in range(7)]
+            df = {"cols": cols, "rows": rows}
+            if strategy == "multi":
+                out.append({"sections": [{"df": df, "body": {}}, {"df": df, "body": {}}], "page": {"nrow": 6}, "kind": "multi"})
+            else:
+                body = {"page_by": ["g0"]} if strategy == "page_by" else {}
+                out.append({"df": df, "body": body, "page": {"nrow": 5}, "kind": "single", "strategy": strategy, "header_mode": "default"})
+    return out
+
+
+_RESERVED_DOCS = reserved_docs()
+
+
 def generate(g, i):
+    if i < len(_RESERVED_DOCS):
+        return _RESERVED_DOCS[i]
     r = g.r
     g.text_mode = "ascii" if r.random() < 0.4 else "safe"
     if r.random() < 0.8:
@@ -24,5 +50,5 @@ def generate(g, i):
 
 
 def run(ctx):
-    return common.run_docprop(ctx, "c02", generate, None, n_quick=160, n_thorough=3000,
+    return common.run_docprop(ctx, "c02", generate, None, n_quick=160 + len(_RESERVED_DOCS), n_thorough=3000 + len(_RESERVED_DOCS),
                               nontrivial=lambda rec: int((rec["result"] or {}).get("nrows", "0")) > 0)
